@@ -52,6 +52,17 @@ def ravel {K : Type} (blocks : List (List K)) : List K := blocks.flatten
 def unravel {K : Type} (slices : List (Nat × Nat)) (flat : List K) : List (List K) :=
   slices.map fun (a, b) => (flat.drop a).take (b - a)
 
+/-- `WaveletTransformBase.scales`: the coefficient list the code builds — `np.full(shapes[0], 0)`
+for the approximation and `{k: np.full(shapes[i][k], i)}` for detail level `i` — as raveled blocks
+(`pywt.ravel_coeffs`: approximation, then per level the sorted keys). -/
+def scaleBlocks (aShape : List Nat) (details : List (List (String × List Nat))) : List (List Nat) :=
+  List.replicate (prod aShape) 0 ::
+    (details.zipIdx.map fun (d, i) => (sortKeys d).map fun b => List.replicate (prod b.2) (i + 1)).flatten
+
+/-- `scales()`: the flat array of level indices. -/
+def scalesOf (aShape : List Nat) (details : List (List (String × List Nat))) : List Nat :=
+  ravel (scaleBlocks aShape details)
+
 /-- Assumption on PyWavelets (measured by the harness on every case): along a transformed
 axis of original length `n`, `pywt.waverecn` returns `n` entries, or `n + 1` when `n` is odd
 (decimation keeps `ceil(n/2)` samples, reconstruction doubles). -/
